@@ -103,6 +103,22 @@ CHECKS = {
          'TLC generates shape x payload-position cases; each is instantiated with canary payloads and evaluated under an audit hook; audit events, canary flags, module-global diffs, grid snapshot, generated-code skeleton equality and foreign names in co_names are logged and judged by TLC (Trace_FilterGen.tla).',
     ref='DESIGN.md 5/C12', technique='TLA+ spec FilterGen model-checked (safe and unsafe emitter variants); TLC-generated injection cases executed under sys.addaudithook and judged by TLC',
     note='canaries are harmless (env var / file under .work); audit events of CPython 3.12; the check is black-box through Grid.filter plus the exec audit event'),
+
+ 'C02': dict(
+    text='Grids from TLC layout plans x catalogue (plus code-point and boundary sweeps) are dumped in JSON mode and parsed in every input form (text, UTF-8 bytes, pre-decoded dict, list of dicts; single object and array of grids); '
+         'TLC judges VEq(Q6(Abs(g)), Q6(Abs(g2))) with spec/Trace_HJson.tla and checks the Remove spelling of the emitted tree per version (spec/HJson.tla).',
+    ref='DESIGN.md 5/C02', technique='TLA+ spec HJson (reader/writer over the tagged JSON tree) + TLC-judged round-trip equality; TLC layout plans',
+    note='six-decimal quantisation Q6 of expected values is computed with exact decimals in Python (delegated float arithmetic); JSON text -> tree by json.loads strict'),
+ 'C05': dict(
+    text='spec/HJson.tla defines Enc(v, ver) as the set of legal trees (every spelling liberty) and Dec; MC_HJson model-checks Dec(Enc(v)) = v and prefix look-alike safety; TLC generates <<tree, denotation>> cases per kind x spelling x position x rows form; '
+         'each is fed to hszinc.parse in all input forms and Abs(result) compared with the denotation by TLC; the caller\'s pre-decoded object must be unchanged.',
+    ref='DESIGN.md 5/C05', technique='TLA+ writer/reader spec HJson model-checked; TLC-generated JSON trees replayed into hszinc.parse; TLC-judged equality',
+    note='top-level parse_scalar of JSON-looking text is the API contract and not judged; strings whose second character is ":" with an unknown prefix are strings'),
+ 'C06': dict(
+    text='Every JSON dump of the layout-plan grids is parsed by json.loads (strict), converted to a tagged tree and judged by TLC: shape clauses (meta.ver, cols[].name, rows objects, array of grids), prefix and payload lexical form per kind, '
+         'and Dec_strict(tree) = Q6(Abs(g)) with the independent reader of spec/HJson.tla.',
+    ref='DESIGN.md 5/C06', technique='TLA+ reader spec HJson (strict mode) executed by TLC over hszinc\'s JSON output; TLC layout plans',
+    note='Q6 delegated as for C02'),
 }
 NOT_YET = {}
 
